@@ -972,6 +972,10 @@ impl C2sDispatcherInner {
   }
 
   fn make_local_nid(&self, username: StringAtom) -> anyhow::Result<Nid> {
+    // A NID with an empty username is the server's own identity.
+    if username.is_empty() {
+      return Err(anyhow::anyhow!("empty username"));
+    }
     match Nid::new(username, StringAtom::from(self.config.listener.domain.as_str())) {
       Ok(nid) => Ok(nid),
       Err(e) => Err(anyhow::Error::new(e)),
